@@ -480,4 +480,54 @@ theorem chop_low_bits (d : Nat) (h8 : d % 8 ≠ 0) (C : List Spec.Md6.Word) :
     rw [← Nat.pow_add, show d % 8 + (8 - d % 8) = 8 by omega]
   rw [h256, Nat.mod_mul_left_mod, Nat.mul_mod_left]
 
+theorem seq_length (P : Spec.Md6.Params) (hr : 1 ≤ P.r) (M : List Nat) (m : Nat) :
+    (Spec.Md6.seq P M m).length = 16 := by
+  unfold Spec.Md6.seq
+  simp only []
+  have hj := numBlocks_pos 3072 m
+  generalize Spec.Md6.numBlocks 3072 m = j at hj
+  obtain ⟨j', rfl⟩ : ∃ j', j = j' + 1 := ⟨j - 1, by omega⟩
+  rw [List.range_succ, List.foldl_append]
+  simp only [List.foldl_cons, List.foldl_nil]
+  exact compress_length P.r hr _
+
+/-- the specification's level loop never runs out of its iteration bound: the result is one chaining value -/
+theorem levels_length (P : Spec.Md6.Params) (hr : 1 ≤ P.r) (fuel : Nat) :
+    ∀ (level : Nat) (M : List Nat) (m : Nat), (m + 7) / 8 ≤ 512 + fuel →
+      (Spec.Md6.levels P (fuel + 1) level M m).length = 16 := by
+  induction fuel with
+  | zero =>
+    intro level M m hf
+    unfold Spec.Md6.levels
+    split
+    · exact seq_length P hr M m
+    · have hj : Spec.Md6.numBlocks 4096 m = 1 := by
+        have h := Md6Pad.numBlocks_eq 512 m (by omega)
+        simp only [show 8 * 512 = 4096 from rfl] at h
+        rw [h]; split
+        · rfl
+        · have : (m - 1) / 4096 = 0 := Nat.div_eq_of_lt (by omega)
+          omega
+      have hpl := par_length P hr level M m
+      rw [hj] at hpl
+      simp only [hpl, Spec.Md6.c, if_true]
+  | succ fuel ih =>
+    intro level M m hf
+    unfold Spec.Md6.levels
+    split
+    · exact seq_length P hr M m
+    · have hpl := par_length P hr level M m
+      by_cases hne : (Spec.Md6.par P level M m).length = Spec.Md6.c
+      · rw [if_pos hne]; exact hne
+      · rw [if_neg hne]
+        have hne : (Spec.Md6.par P level M m).length ≠ 16 := hne
+        have hj : Spec.Md6.numBlocks 4096 m ≠ 1 := by intro h; rw [h] at hpl; exact hne hpl
+        have hjj := Md6Pad.numBlocks_eq 512 m (by omega)
+        simp only [show 8 * 512 = 4096 from rfl] at hjj
+        apply ih
+        rw [hpl]
+        split at hjj
+        · omega
+        · omega
+
 end Proofs.Lemmas.Md6Mode
